@@ -778,8 +778,13 @@ def run(case, env):
             sig = ("C12/remove-deletes-unversioned-file-on-path-whose-removal-"
                    "is-pending")
         if fmt == "git" and incoming_model is not None:
-            new_in = set(tm.paths(incoming_model)) - basis_paths
-            if lost["path"] in new_in:
+            in_paths = set(tm.paths(incoming_model))
+            new_in = in_paths - basis_paths
+            # (an unversioned file also counts when the incoming revision
+            # still has a file on that path and the local tree removed its
+            # own: the incoming file is written over the unversioned one)
+            if lost["path"] in new_in or (not lost["versioned"] and
+                                          lost["path"] in in_paths):
                 # open findings (git trees only; bzr moves the local file to
                 # <path>.moved)
                 sig = ("C12/git-merge-overwrites-unversioned-file-with-"
